@@ -18,6 +18,7 @@ import store   # noqa: E402
 import graphs  # noqa: E402
 
 wn = wnenv.wn
+REVERSED = len(sys.argv) > 2 and sys.argv[2] == 'reversed'
 
 
 def transcript(sc, d):
@@ -31,10 +32,13 @@ def transcript(sc, d):
     with warnings.catch_warnings():
         warnings.simplefilter('ignore')
         out['obs'] = store.obs_all(wn)
-        bats = []
-        for sel in sc['selections']:
-            bats.append(store.battery(wn, dict({'k': 'battery'}, **sel)))
-        out['batteries'] = bats
+        bats = {}
+        sels = list(sc['selections'])
+        if REVERSED:
+            sels = sels[::-1]         # same calls, other order: earlier read-only calls must not matter
+        for sel in sels:
+            bats[json.dumps(sel, sort_keys=True)] = store.battery(wn, dict({'k': 'battery'}, **sel))
+        out['batteries'] = [bats[json.dumps(sel, sort_keys=True)] for sel in sc['selections']]
         # taxonomy / similarity / IC on the graph lexicon
         w = wn.Wordnet('g0:1')
         ss = w.synsets()
@@ -74,6 +78,10 @@ def transcript(sc, d):
         # lookups with a lemmatizer
         lw = wn.Wordnet('a:1', lemmatizer=Morphy(wn.Wordnet('a:1')))
         out['lookups'] = [[q, [x.id for x in lw.words(q)], [x.id for x in lw.synsets(q)], [x.id for x in wn.words(q)]] for q in sc['queries']]
+        mw = wn.Wordnet('m:1', lemmatizer=Morphy(wn.Wordnet('m:1')))
+        mu0 = wn.Wordnet('m:1', lemmatizer=Morphy())
+        out['lookups_m'] = [[q, [x.id for x in mw.words(q)], [x.id for x in mw.senses(q)], [x.id for x in mw.synsets(q)],
+                             [x.id for x in mu0.words(q)]] for q in ('axes', 'axe', 'boxes', 'Axes')]
         mu = Morphy()
         out['morphy'] = [[q, {str(k): sorted(v) for k, v in mu(q).items()}] for q in sc['queries']]
         # validate
